@@ -68,6 +68,10 @@ TEMPLATES = [
     ("eq-matrix", ["--select=(map .a (= . ^.x))=v"], lambda xs: {"v": [True] + [False] * (len(xs) - 1)}),
     # integers that enter through the command line (--set / -e) rather than through the input
     ("preset-var", "PRESET", lambda xs: {"v": xs[0], "w": [xs[1], xs[0]], "same": True}),
+    # type guards and casts hand a number back as it is
+    ("as-number", ["--select=(as_number .x)=v", "--select=(map .a (as_number .))=w", "--select=(as_string (stringify .x))=s"], lambda xs: {"v": xs[0], "w": xs, "s": str(xs[0])}),
+    ("guards", ["--select=(? (number? .x) .x 0)=v", "--select=(filter .a (number? .))=w", "--select=(default .nothing .x)=d", "--select=(first (push [] .x))=f"],
+     lambda xs: {"v": xs[0], "w": xs, "d": xs[0], "f": xs[0]}),
 ]
 STYLES = [["--style", "one-line"], ["--style", "consise"], ["--style", "pretty"]]
 
@@ -111,7 +115,9 @@ def gen_int_unit(rng):
 
 # plain integers with sixteen and more trailing zeros (a normal form switches to exponent notation somewhere there)
 INT_EDGES_Z = [10 ** 15, 10 ** 16, 10 ** 17, 2 * 10 ** 17, 123 * 10 ** 16, -(10 ** 18), 10 ** 18, 5 * 10 ** 16, -(2 * 10 ** 17), 10 ** 20, 10 ** 30]
-INT_EDGES = INT_EDGES_Z + [2 ** 63, 2 ** 63 - 1, -(2 ** 63), -(2 ** 63) - 1, 2 ** 64, 2 ** 64 - 1, 2 ** 31, -(2 ** 31), 2 ** 53, 2 ** 53 + 1, -(2 ** 53) - 1,
+# around the 128-bit integer range (two operands that fit, a result that does not)
+INT_EDGES_128 = [2 ** 127 - 1, -(2 ** 127) + 1, 10 ** 38, -(10 ** 38), 10 ** 38 - 1, -(10 ** 38) + 1, 9 * 10 ** 37, -(9 * 10 ** 37) - 1, 2 ** 126, -(2 ** 126), 2 ** 128 - 1, 1, -1]
+INT_EDGES = INT_EDGES_Z + INT_EDGES_128 + [2 ** 63, 2 ** 63 - 1, -(2 ** 63), -(2 ** 63) - 1, 2 ** 64, 2 ** 64 - 1, 2 ** 31, -(2 ** 31), 2 ** 53, 2 ** 53 + 1, -(2 ** 53) - 1,
              2 ** 32, 10 ** 19, -(10 ** 19), 2 ** 127, -(2 ** 127), 0]
 
 
